@@ -426,7 +426,7 @@ func fromNative(rv reflect.Value, t types.Type) Val {
 			return (*Val)(nil)
 		}
 		for _, a := range bigArgs {
-			if a.nat.Pointer() == rv.Pointer() {
+			if a.nat.Type() == rv.Type() && a.nat.Pointer() == rv.Pointer() {
 				return a.cell
 			}
 		}
